@@ -192,10 +192,14 @@ def gen_kv_trace(rng, length=14, exhaustive_seq=None):
     wide = rng.random() < 0.35
     KVTICKS = [0, 1, 2, 3, 255, 256, 1023, 1025, 4095, 4096, 4097, 4098, 8193, 65536, 100000, 2 ** 32 + 1, 2 ** 40, 2 ** 63 - 1]
 
+    # instance ids are random 64-bit numbers in production: in the wide traces the three ids of the alphabet agree in their low 32
+    # bits, or differ in the top bit only, so that a truncated or masked comparison shows
+    inst = rng.choice([[0, 7, 7 + 2 ** 32], [0, 2 ** 63 + 5, 5], [0, 2 ** 64 - 1, 2 ** 32 - 1], [0, 65537, 1]]) if wide else [0, 1, 2]
+
     def kvop():
         k = rng.choice(keys)
         t = rng.choice(KVTICKS) if wide else rng.randint(0, 3)
-        return ("K", k, rng.choice([1, 2, 3]), rng.choice([0, 1, 2]), t, rng.choice([0, 1, 2]), rng.random() < 0.25)
+        return ("K", k, rng.choice([1, 2, 3]), rng.choice(inst), t, rng.choice(inst), rng.random() < 0.25)
     seq = exhaustive_seq if exhaustive_seq is not None else None
     n = length if seq is None else len(seq)
     fork_at = rng.randrange(n + 1)
